@@ -232,19 +232,19 @@ type Interp struct {
 	fellThrough bool
 	closLits    map[types.Object]*ast.FuncLit
 	liftedPaths map[string]types.Object // inside execFor: field path → synthetic variable
-	byRef       bool   // closure body: assignments to captured variables are written back to the caller's frame
-	contGuard   string // set by execIf: guard under which the rest of the enclosing block runs
+	byRef       bool                    // closure body: assignments to captured variables are written back to the caller's frame
+	contGuard   string                  // set by execIf: guard under which the rest of the enclosing block runs
 	curLit      *ast.FuncType
 }
 
 type sharedCtx struct {
-	nextBuf  int
-	nextObj  int
-	nextSym  int
-	nextLoop int
+	nextBuf   int
+	nextObj   int
+	nextSym   int
+	nextLoop  int
 	fieldVars map[string]*types.Var // synthetic variables standing for integer fields of local objects inside a for loop
-	lenDepth int
-	seq      int
+	lenDepth  int
+	seq       int
 }
 
 type CallRec struct {
